@@ -86,6 +86,8 @@ pub fn mark_job_as_running(sh: &mut shell::Shell, gid: i32, bg: bool) {
 
 #[allow(unreachable_patterns)]
 pub fn waitpidx(wpid: i32, block: bool) -> types::WaitStatus {
+    #[cfg(cicada_verif)]
+    use crate::verif_hooks::waitpid;
     let options = if block {
         Some(WF::WUNTRACED | WF::WCONTINUED)
     } else {
